@@ -361,6 +361,8 @@ def run(ck):
         ck.floor("C07-R5", "FilenameDistributor::add calls in the parallel driver", len(adds), 1)
         c06.related_names_registered(ck, par, adds, "C07-R5")
         r6_every_usable_name_is_scheduled(ck, par)
+        # "the same name" must mean to the grouping what it means to the workers' file maps (shared with C06-R8)
+        c06.scheduling_key_type(ck, par, "C07-R7")
 
 
 def r6_every_usable_name_is_scheduled(ck, par, rule="C07-R6"):
